@@ -322,6 +322,12 @@ class Program:
                 return getattr(self, "_alias", {}).get(dotted, dotted)
             if head in mod.assigns:
                 v = mod.assigns[head]
+                # a memoised wrapper alias that no rule anchors on computes what its target computes: calls of it read as
+                # calls of the target (that it is memoised stays visible through memoised_functions())
+                if not tail and dotted not in ANCHORED_MEMO_WRAPPERS and "MEMO_DECORATORS" in globals():
+                    hit = self.memo_wrap_target(mod, v)
+                    if hit and hit[1].startswith("typelib."):
+                        return self.canonical(hit[1], _depth + 1)
                 # plain alias X = a.b.c  (no call, no subscript)
                 chain = _attr_chain(v)
                 if chain is not None:
@@ -582,14 +588,35 @@ class Program:
                 out[f.qualname] = d
         for m in self.modules.values():
             for nm, v in m.assigns.items():
-                if isinstance(v, ast.Call) and (self.resolve_expr_name(m, v.func) in MEMO_DECORATORS or self._memo_wrapper(self.resolve_expr_name(m, v.func))) and v.args:
-                    target = self.resolve_expr_name(m, v.args[0])
-                    if target:
-                        out[f"{m.name}.{nm}"] = f"{self.resolve_expr_name(m, v.func)}({target})"
+                hit = self.memo_wrap_target(m, v)
+                if hit:
+                    out[f"{m.name}.{nm}"] = f"{hit[0]}({hit[1]})"
         return out
+
+    def memo_wrap_target(self, m: "Module", v: ast.expr) -> tuple[str, str] | None:
+        """`memo(func)` / `memo(maxsize=…)(func)` with `memo` the stdlib memoiser (possibly under a package name):
+        (memoiser, resolved target) — the value of a `name = …` wrapper alias."""
+        if not (isinstance(v, ast.Call) and len(v.args) == 1 and not v.keywords):
+            return None
+        fn = v.func
+        if isinstance(fn, ast.Call) and not fn.args:
+            fn = fn.func  # lru_cache(maxsize=4096)(func)
+        name = self.resolve_expr_name(m, fn)
+        if not (name in MEMO_DECORATORS or self._memo_wrapper(name)):
+            return None
+        target = self.resolve_expr_name(m, v.args[0])
+        return (name, target) if target else None
 
 
 MEMO_DECORATORS = {"functools.cache", "functools.lru_cache"}
+
+# the wrapper aliases of the tree that rules name themselves (floors, triage tables); any other is transparent to the evaluator
+ANCHORED_MEMO_WRAPPERS = {
+    "typelib.py.inspection.cached_signature",
+    "typelib.py.inspection.cached_type_hints",
+    "typelib.py.inspection.cached_simple_attributes",
+    "typelib.py.inspection.cached_issubclass",
+}
 
 # where two private callees have the same shape: the one meant is the one that itself calls ...
 ROLE_MUST_CALL = {"typelib.py.inspection._hints_from_signature": "typelib.py.inspection.signature"}
